@@ -25,6 +25,7 @@ Expectation propagation implementation
 """
 
 import logging
+import os
 import time
 
 import numba
@@ -46,6 +47,10 @@ from .rescaling import (
 from .util import contains_unary_nodes
 
 logger = logging.getLogger(__name__)
+
+# verification hook (off unless TSDATE_VERIF=1 and an observer is installed)
+_verif_observer = None
+_VERIF = os.environ.get("TSDATE_VERIF", "0") == "1"
 
 # columns for edge_factors
 ROOTWARD = 0  # edge likelihood to parent
@@ -843,6 +848,8 @@ class ExpectationPropagation:
                 regularise=regularise,
             )
             self.mean_edge_logconst.append(np.mean(self.edge_logconst))
+            if _VERIF and _verif_observer is not None:
+                _verif_observer(len(self.mean_edge_logconst), self)
 
         nodes_timing -= time.time()
         skipped_edges = np.sum(np.isnan(self.edge_logconst))
